@@ -127,10 +127,16 @@ func newHeaderLemma(c *Ctx, rule string) *headerLemma {
 						for i, e := range phi.Edges {
 							if outer.Dominates(outer.Preds[i]) {
 								if d, isC := A.LenOf(e).Sub(LinSym(A.lenSym(phi))).IsConst(); isC && d == 1 {
+									// every return hands back the accumulator as it stands at the loop
+									// header, and only once the loop over the satellites has run to its end
+									all := len(returnsOf(g)) > 0
 									for _, r := range returnsOf(g) {
-										if r.Results[0] == ssa.Value(phi) {
-											rowsOK = true
+										if r.Results[0] != ssa.Value(phi) || !outer.Dominates(r.Block()) {
+											all = false
 										}
+									}
+									if all {
+										rowsOK = true
 									}
 								}
 							} else if !A.LenOf(e).Equal(LinConst(0)) {
